@@ -174,6 +174,18 @@ def run_shard(ctx):  # noqa: C901, PLR0912, PLR0915
         routes = [(f'pickle{p}', lambda p=p: pickle.loads(pickle.dumps(spec, protocol=p))) for p in range(6)]  # noqa: S301
         routes += [('copy', lambda: copy.copy(spec)), ('deepcopy', lambda: copy.deepcopy(spec)),
                    ('setstate', lambda: _via_state(spec))]
+        # the dict-order mode in force while dumping / loading must not matter: the treespec was made
+        # under cfg['mode'] and must come back exactly, whatever mode the pickling happens under
+        if cfg['pred'] == 'none':
+            for dm in ('sorted', 'ins_ns', 'ins_global'):
+                for lm in ('sorted', 'ins_ns', 'ins_global'):
+                    if dm == lm == cfg['mode']:
+                        continue
+                    routes.append((f'pickle-dump@{dm}-load@{lm}', lambda dm=dm, lm=lm: _cross_mode(spec, dm, lm)))
+            for m2 in ('sorted', 'ins_ns', 'ins_global'):
+                if m2 != cfg['mode']:
+                    routes.append((f'copy@{m2}', lambda m2=m2: _in_mode(m2, lambda: copy.copy(spec))))
+                    routes.append((f'deepcopy@{m2}', lambda m2=m2: _in_mode(m2, lambda: copy.deepcopy(spec))))
         for name, fn in routes:
             ctx.count()
             try:
@@ -221,6 +233,18 @@ def run_shard(ctx):  # noqa: C901, PLR0912, PLR0915
     finally:
         for ld in loaders.values():
             ld.close()
+
+
+def _in_mode(mode, fn):
+    from mc import universe as un  # noqa: PLC0415
+
+    with un.force_mode(mode):
+        return fn()
+
+
+def _cross_mode(spec, dump_mode, load_mode):
+    data = _in_mode(dump_mode, lambda: pickle.dumps(spec, protocol=4))
+    return _in_mode(load_mode, lambda: pickle.loads(data))  # noqa: S301
 
 
 def _via_state(spec):
